@@ -534,4 +534,551 @@ theorem binSame_sound {S ρ o a1 l1 r1 a2 l2 r2 v1 v2}
       rw [← t1, ← t2, ← evalBin_comm o _ _ _ _ (comm_cop_list hc hlog'), e1] at e2
       exact ⟨by simpa using e2, by rw [← t1, ← t2, binTy_comm o _ _ hc]⟩
 
+theorem isSameF_sound (S : Sem) (cpp : Bool) (ρ : Env) :
+    ∀ (n : Nat) (c1 : Ctx) (e1 : Expr) (c2 : Ctx) (e2 : Expr), Good S e1 → Good S e2 →
+      isSameF cpp n c1 e1 c2 e2 = true →
+      ∀ v1 v2, eval S ρ e1 = some v1 → eval S ρ e2 = some v2 → Sim S c1 e1 v1 c2 e2 v2 := by
+  intro n
+  induction n with
+  | zero => intro _ _ _ _ _ _ h; simp [isSameF] at h
+  | succ n ih =>
+    intro c1 e1 c2 e2 g1 g2 h v1 v2 h1 h2
+    unfold isSameF at h
+    split at h
+    · -- `!!x` on the left
+      rename_i x hx
+      split at hx
+      · rename_i hb2
+        obtain ⟨gx, hbv, w, hw, ht⟩ := dblNot_eval hx g1 h1
+        have := (ih _ _ _ _ gx g2 h w v2 hw h2).truthy
+        exact Or.inr ⟨by simp [boolLike, hbv], hb2, ht.trans this⟩
+      · simp at hx
+    · split at h
+      · -- `!!y` on the right
+        rename_i y hy
+        split at hy
+        · rename_i hb1
+          obtain ⟨gy, hbv, w, hw, ht⟩ := dblNot_eval hy g2 h2
+          have := (ih _ _ _ _ g1 gy h v1 w h1 hw).truthy
+          exact Or.inr ⟨hb1, by simp [boolLike, hbv], this.trans ht.symm⟩
+        · simp at hy
+      · split at h
+        · simp at h
+        · split at h
+          · rename_i hsc
+            exact Or.inl (sameConst_sound hsc g1.1 g2.1 h1 h2)
+          · split at h
+            · rename_i hne
+              split at h
+              · -- `<` against `>`
+                rename_i a b c d hfp
+                obtain ⟨a1, o1, a2, o2, rfl, rfl, hf⟩ := flipPick_spec hfp
+                simp only [Bool.and_eq_true] at h
+                have hlog1 : o1.isLogic = false := by cases o1 <;> cases o2 <;> simp [flipPair] at hf <;> rfl
+                have hlog2 : o2.isLogic = false := by cases o1 <;> cases o2 <;> simp [flipPair] at hf <;> rfl
+                have hoo : o1 ≠ o2 := by
+                  intro e; subst e; simp [Expr.strEq] at hne
+                obtain ⟨x1, y1, hx1, hy1, e1⟩ := eval_bin_cop hlog1 h1
+                obtain ⟨x2, y2, hx2, hy2, e2⟩ := eval_bin_cop hlog2 h2
+                obtain ⟨gl1, gr1⟩ := g1.bin
+                obtain ⟨gl2, gr2⟩ := g2.bin
+                obtain ⟨rfl, t1⟩ := Sim.cop gl1.1 gr2.1 hx1 hy2 (ih _ _ _ _ gl1 gr2 h.1 x1 y2 hx1 hy2)
+                obtain ⟨rfl, t2⟩ := Sim.cop gr1.1 gl2.1 hy1 hx2 (ih _ _ _ _ gr1 gl2 h.2 y1 x2 hy1 hx2)
+                obtain ⟨fv, ft⟩ := @flip_val o1 o2 (tyOf S a) (tyOf S c) x1 y1 hoo hf
+                left
+                rw [tyOf_bin, tyOf_bin, ← t1, ← t2]
+                rw [fv, t1, t2, e2] at e1
+                exact ⟨by simpa using e1.symm, ft⟩
+              · split at h
+                · -- `==|!=` against a boolean expression
+                  rename_i ca a cb b hpick
+                  unfold eqNePick at hpick
+                  split at hpick
+                  · obtain ⟨ga, gb, u, w, hu, hw, hsim⟩ := eqNeCond_sound hpick g1 g2 h1 h2
+                    exact hsim (ih _ _ _ _ ga gb h u w hu hw) c1
+                  · split at hpick
+                    · obtain ⟨ga, gb, u, w, hu, hw, hsim⟩ := eqNeCond_sound hpick g2 g1 h2 h1
+                      exact (hsim (ih _ _ _ _ ga gb h u w hu hw) c2).symm
+                    · simp at hpick
+                · simp at h
+            · -- same token string
+              rename_i hse
+              split at h
+              · simp [Expr.strEq] at hse
+                subst hse
+                simp only [eval, Option.some.injEq] at h1 h2
+                exact Or.inl ⟨by rw [← h1, ← h2], by simp [tyOf]⟩
+              · simp [Expr.strEq] at hse
+                subst hse
+                simp only [eval, Option.some.injEq] at h1 h2
+                exact Or.inl ⟨by rw [← h1, ← h2], by simp [tyOf]⟩
+              · rename_i a1 o1 x1 a2 o2 x2 q1 q2 q3 q4
+                simp [Expr.strEq] at hse
+                subst hse
+                obtain ⟨w1, hw1, r1⟩ := eval_un h1
+                obtain ⟨w2, hw2, r2⟩ := eval_un h2
+                have hs := ih _ _ _ _ g1.un g2.un h w1 w2 hw1 hw2
+                left
+                rw [tyOf_un, tyOf_un]
+                cases o1
+                case lnot =>
+                  have t := hs.truthy
+                  simp [evalUn] at r1 r2
+                  subst r1; subst r2
+                  refine ⟨?_, by simp [unTy]⟩
+                  by_cases hw : w1 = 0 <;> simp_all [b2i]
+                all_goals
+                  simp only [childCtxU] at hs
+                  obtain ⟨rfl, t⟩ := Sim.cop g1.un.1 g2.un.1 hw1 hw2 hs
+                  rw [t, r2] at r1
+                  exact ⟨by simpa using r1.symm, by rw [t]⟩
+              · simp [Expr.strEq] at hse
+                subst hse
+                obtain ⟨gl1, gr1⟩ := g1.bin
+                obtain ⟨gl2, gr2⟩ := g2.bin
+                simp only [Bool.or_eq_true, Bool.and_eq_true] at h
+                refine Or.inl (binSame_sound gl1.1 gr1.1 gl2.1 gr2.1 ?_ h1 h2)
+                rcases h with ⟨ha, hb⟩ | ⟨⟨⟨_, hc⟩, ha⟩, hb⟩
+                · exact Or.inl ⟨fun va vb => ih _ _ _ _ gl1 gl2 ha va vb, fun va vb => ih _ _ _ _ gr1 gr2 hb va vb⟩
+                · exact Or.inr ⟨hc, fun va vb => ih _ _ _ _ gr1 gl2 ha va vb, fun va vb => ih _ _ _ _ gl1 gr2 hb va vb⟩
+              · simp at h
+
+theorem isSame_sound {S cpp ρ c1 e1 c2 e2 v1 v2} (h : isSame cpp c1 e1 c2 e2 = true) (g1 : Good S e1) (g2 : Good S e2)
+    (h1 : eval S ρ e1 = some v1) (h2 : eval S ρ e2 = some v2) : Sim S c1 e1 v1 c2 e2 v2 :=
+  isSameF_sound S cpp ρ _ c1 e1 c2 e2 g1 g2 h v1 v2 h1 h2
+
+/-- the relation `isOppositeCond` claims: `isNot = true`: exactly one of the two holds; `false`: not both -/
+def Opp (isNot : Bool) (v1 v2 : Int) : Prop :=
+  if isNot then (v1 ≠ 0 ↔ ¬ v2 ≠ 0) else ¬(v1 ≠ 0 ∧ v2 ≠ 0)
+
+theorem Opp.of_strict {isNot v1 v2} (h : v1 ≠ 0 ↔ ¬ v2 ≠ 0) : Opp isNot v1 v2 := by
+  cases isNot <;> simp only [Opp] <;> simp_all
+
+theorem Opp.symm {isNot v1 v2} (h : Opp isNot v1 v2) : Opp isNot v2 v1 := by
+  cases isNot <;> simp only [Opp] at * <;> simp_all <;> omega
+
+/-- mathematical comparison -/
+def cmpZ : BinOp → Int → Int → Bool
+  | .lt, a, b => decide (a < b)
+  | .le, a, b => decide (a ≤ b)
+  | .gt, a, b => decide (a > b)
+  | .ge, a, b => decide (a ≥ b)
+  | .eq, a, b => decide (a = b)
+  | .ne, a, b => decide (a ≠ b)
+  | _, _, _ => false
+
+theorem evalBin_cmp {op : BinOp} (hc : op.isCmp = true) (ta tb : Ty) (x y : Int) :
+    evalBin op ta tb x y = some (b2i (cmpZ op (wrap (uac ta tb) x) (wrap (uac ta tb) y))) := by
+  cases op <;> simp [BinOp.isCmp] at hc <;> simp [evalBin, BinOp.isShift, cmpZ]
+
+theorem cmpZ_flip (o : BinOp) (a b : Int) : cmpZ (flipOp o) a b = cmpZ o b a := by
+  cases o <;> simp [flipOp, cmpZ, eq_comm]
+
+theorem flipOp_isCmp (o : BinOp) : (flipOp o).isCmp = o.isCmp := by
+  cases o <;> rfl
+
+theorem oppTable_sound {isNot : Bool} {c1 c2 : BinOp} (h : oppTable isNot c1 c2 = true) (a b : Int) :
+    Opp isNot (b2i (cmpZ c1 a b)) (b2i (cmpZ c2 a b)) := by
+  cases isNot <;> cases c1 <;> cases c2 <;> simp [oppTable] at h <;>
+    simp [Opp, cmpZ, b2i_ne_zero] <;> omega
+
+theorem isZeroStr_eval {S ρ e v} (hz : S.lval ['0'] = 0) (h : e.isZeroStr = true) (he : eval S ρ e = some v) : v = 0 := by
+  cases e <;> simp [Expr.isZeroStr] at h
+  subst h
+  simp only [eval, hz, Option.some.injEq] at he
+  subst he
+  generalize S.lty ['0'] = t
+  obtain ⟨r, s⟩ := t
+  cases r <;> cases s <;> simp [wrap, Ty.bits, Rank.bits]
+
+/-- astutils.cpp:1878-1888 (`cond1` = `!x`): `x` and `cond2` have the same truth value -/
+theorem notBranch_sound {S cpp ρ x c2 cond2 w v2} (hz : S.lval ['0'] = 0)
+    (h : notBranch cpp x c2 cond2 = true) (gx : Good S x) (g2 : Good S cond2)
+    (hx : eval S ρ x = some w) (h2 : eval S ρ cond2 = some v2) : (w ≠ 0 ↔ v2 ≠ 0) := by
+  have generic : notGeneric cpp x c2 cond2 = true → (w ≠ 0 ↔ v2 ≠ 0) := by
+    intro hg
+    unfold notGeneric at hg
+    split at hg
+    · simp at hg
+    · exact (isSame_sound hg gx g2 hx h2).truthy
+  unfold notBranch at h
+  split at h
+  · rename_i a l r
+    obtain ⟨gl, gr⟩ := g2.bin
+    obtain ⟨xl, yr, hl, hr, hv⟩ := eval_bin_cop (by rfl) h2
+    rw [evalBin_cmp (by rfl)] at hv
+    simp only [Option.some.injEq] at hv
+    split at h
+    · rename_i hzl
+      have := isZeroStr_eval hz hzl hl
+      subst this
+      have t := (isSame_sound h gx gr hx hr).truthy
+      rw [t, ← hv, b2i_ne_zero]
+      simp only [cmpZ, decide_eq_true_eq, wrap_uac_01 _ _ 0 (Or.inl rfl)]
+      have := wrap_uac_eq_zero_right (tyOf S l) (tyOf S r) yr (eval_inRange S ρ _ _ hr)
+      rw [ne_comm (a := (0:Int)), Ne, Ne, this]
+    · split at h
+      · rename_i hzr
+        have := isZeroStr_eval hz hzr hr
+        subst this
+        have t := (isSame_sound h gx gl hx hl).truthy
+        rw [t, ← hv, b2i_ne_zero]
+        simp only [cmpZ, decide_eq_true_eq, wrap_uac_01 _ _ 0 (Or.inl rfl)]
+        have := wrap_uac_eq_zero_left (tyOf S l) (tyOf S r) xl (eval_inRange S ρ _ _ hl)
+        rw [Ne, Ne, this]
+      · exact generic h
+  · exact generic h
+
+theorem fits_val {S ρ T e v} (h : fits S T e = true) (he : eval S ρ e = some v) :
+    inRange T v ∧ (e.closed = true → toI64 v = v) := by
+  unfold fits at h
+  split at h
+  · rename_i hc
+    rw [eval_closed S ρ (fun _ => 0) e hc] at he
+    rw [he] at h
+    simp only [Bool.and_eq_true, decide_eq_true_eq] at h
+    exact ⟨h.1, fun _ => h.2⟩
+  · rename_i hc
+    have r := eval_inRange S ρ e v he
+    simp only [subRange, Bool.and_eq_true, decide_eq_true_eq] at h
+    refine ⟨⟨by unfold inRange at r; omega, by unfold inRange at r; omega⟩, fun q => absurd q hc⟩
+
+theorem known_closed {S e k} (g : annOK S e = true) (hk : e.ann.known = some k) :
+    e.closed = true ∧ e.ann.front = some k := by
+  cases e with
+  | lit a sp =>
+    simp only [annOK, Bool.and_eq_true, beq_iff_eq] at g
+    simp only [Expr.ann] at hk ⊢
+    exact ⟨rfl, by rw [g.1.2, hk]⟩
+  | var a x =>
+    simp only [annOK, Bool.and_eq_true, beq_iff_eq] at g
+    simp only [Expr.ann] at hk
+    rw [g.1.2] at hk; simp at hk
+  | un a op e =>
+    simp only [annOK, Bool.and_eq_true] at g
+    have g2 := g.1.2
+    simp only [knownOK, hk, Bool.and_eq_true, beq_iff_eq] at g2
+    exact ⟨g2.1.1.1, g2.2⟩
+  | bin a op l r =>
+    simp only [annOK, Bool.and_eq_true] at g
+    have g2 := g.1.2
+    simp only [knownOK, hk, Bool.and_eq_true, beq_iff_eq] at g2
+    exact ⟨g2.1.1.1, g2.2⟩
+
+/-- side conditions of the soundness of `isOpp` -/
+def OGood (S : Sem) (isNot : Bool) (e : Expr) : Prop := Good S e ∧ (isNot = false → cmpSafe S e = true)
+
+theorem OGood.un {S isNot a op e} (h : OGood S isNot (.un a op e)) : OGood S isNot e :=
+  ⟨h.1.un, fun q => by have := h.2 q; simpa [cmpSafe] using this⟩
+
+theorem OGood.bin {S isNot a op l r} (h : OGood S isNot (.bin a op l r)) : OGood S isNot l ∧ OGood S isNot r := by
+  refine ⟨⟨h.1.bin.1, fun q => ?_⟩, ⟨h.1.bin.2, fun q => ?_⟩⟩ <;>
+    (have := h.2 q; simp only [cmpSafe, Bool.and_eq_true] at this)
+  · exact this.1.1
+  · exact this.1.2
+
+/-- an exact comparison (every comparison with a Known operand, by `cmpSafe`) is the mathematical comparison -/
+theorem cmp_exact {S ρ a o l r v} (g : OGood S false (.bin a o l r)) (hc : o.isCmp = true)
+    (hk : l.ann.known.isSome = true ∨ r.ann.known.isSome = true) (h : eval S ρ (.bin a o l r) = some v) :
+    ∃ X Y, eval S ρ l = some X ∧ eval S ρ r = some Y ∧ v = b2i (cmpZ o X Y) ∧
+      (l.closed = true → toI64 X = X) ∧ (r.closed = true → toI64 Y = Y) := by
+  have hs := g.2 rfl
+  simp only [cmpSafe, Bool.and_eq_true, Bool.or_eq_true, Bool.not_eq_true'] at hs
+  have hfit : fits S (uac (tyOf S l) (tyOf S r)) l = true ∧ fits S (uac (tyOf S l) (tyOf S r)) r = true := by
+    rcases hs.2 with q | q
+    · simp only [Bool.and_eq_false_iff, Bool.or_eq_false_iff] at q
+      rcases q with q | q
+      · rw [hc] at q; simp at q
+      · rcases hk with k | k
+        · rw [k] at q; simp at q
+        · rw [k] at q; simp at q
+    · exact q
+  have hlog : o.isLogic = false := by cases o <;> simp [BinOp.isCmp] at hc <;> rfl
+  obtain ⟨X, Y, hX, hY, hv⟩ := eval_bin_cop hlog h
+  obtain ⟨rX, cX⟩ := fits_val hfit.1 hX
+  obtain ⟨rY, cY⟩ := fits_val hfit.2 hY
+  rw [evalBin_cmp hc, wrap_of_inRange _ _ rX, wrap_of_inRange _ _ rY] at hv
+  exact ⟨X, Y, hX, hY, by simpa using hv.symm, cX, cY⟩
+
+/-- value of a Known operand = its annotation -/
+theorem known_eq {S ρ e k K} (g : annOK S e = true) (hk : e.ann.known = some k) (h : eval S ρ e = some K)
+    (hc : e.closed = true → toI64 K = K) : k = K := by
+  rw [known_val g hk h, hc (known_closed g hk).1]
+
+theorem diffKnown_spec {S e1 e2} (g1 : annOK S e1 = true) (g2 : annOK S e2 = true) (h : diffKnown e1 e2 = true) :
+    ∃ a b, e1.ann.known = some a ∧ e2.ann.known = some b ∧ a ≠ b := by
+  unfold diffKnown at h
+  split at h
+  · rename_i a b ha hb
+    exact ⟨a, b, first_known g1 ha, first_known g2 hb, by simpa using h⟩
+  · simp at h
+
+/-- astutils.cpp:1894-1899 -/
+theorem eqEqRule_sound {S cpp ρ cond1 cond2 v1 v2 b} (h : eqEqRule cpp cond1 cond2 = some b) (hb : b = true)
+    (g1 : OGood S false cond1) (g2 : OGood S false cond2)
+    (h1 : eval S ρ cond1 = some v1) (h2 : eval S ρ cond2 = some v2) : ¬(v1 ≠ 0 ∧ v2 ≠ 0) := by
+  unfold eqEqRule at h
+  split at h
+  · rename_i a1 l1 r1 a2 l2 r2
+    obtain ⟨gl1, gr1⟩ := g1.bin
+    obtain ⟨gl2, gr2⟩ := g2.bin
+    split at h
+    · rename_i hs
+      simp only [Option.some.injEq] at h
+      rw [← h] at hb
+      obtain ⟨a, b', ka, kb, hab⟩ := diffKnown_spec gr1.1.1 gr2.1.1 hb
+      obtain ⟨X1, Y1, hX1, hY1, e1, _, c1⟩ := cmp_exact g1 (by rfl) (Or.inr (by simp [ka])) h1
+      obtain ⟨X2, Y2, hX2, hY2, e2, _, c2⟩ := cmp_exact g2 (by rfl) (Or.inr (by simp [kb])) h2
+      obtain ⟨rfl, _⟩ := Sim.cop gl1.1.1 gl2.1.1 hX1 hX2 (isSame_sound hs gl1.1 gl2.1 hX1 hX2)
+      have q1 := known_eq gr1.1.1 ka hY1 c1
+      have q2 := known_eq gr2.1.1 kb hY2 c2
+      subst e1; subst e2; subst q1; subst q2
+      simp only [cmpZ, b2i_ne_zero, decide_eq_true_eq]
+      omega
+    · split at h
+      · rename_i hs
+        simp only [Option.some.injEq] at h
+        rw [← h] at hb
+        obtain ⟨a, b', ka, kb, hab⟩ := diffKnown_spec gl1.1.1 gl2.1.1 hb
+        obtain ⟨X1, Y1, hX1, hY1, e1, c1, _⟩ := cmp_exact g1 (by rfl) (Or.inl (by simp [ka])) h1
+        obtain ⟨X2, Y2, hX2, hY2, e2, c2, _⟩ := cmp_exact g2 (by rfl) (Or.inl (by simp [kb])) h2
+        obtain ⟨rfl, _⟩ := Sim.cop gr1.1.1 gr2.1.1 hY1 hY2 (isSame_sound hs gr1.1 gr2.1 hY1 hY2)
+        have q1 := known_eq gl1.1.1 ka hX1 c1
+        have q2 := known_eq gl2.1.1 kb hX2 c2
+        subst e1; subst e2; subst q1; subst q2
+        simp only [cmpZ, b2i_ne_zero, decide_eq_true_eq]
+        omega
+      · simp at h
+  · simp at h
+
+/-- astutils.cpp:1956-1968 + 2013-2023: same (or crosswise same) operands, comparator pair in the table -/
+theorem comp2_sound {S cpp ρ isNot a1 o1 l1 r1 cond2 c2 v1 v2}
+    (h : comp2 cpp (.bin a1 o1 l1 r1) cond2 = some c2) (ht : oppTable isNot o1 c2 = true)
+    (g1 : Good S (.bin a1 o1 l1 r1)) (g2 : Good S cond2) (hc1 : o1.isCmp = true) (hc2 : cond2.isCmp = true)
+    (h1 : eval S ρ (.bin a1 o1 l1 r1) = some v1) (h2 : eval S ρ cond2 = some v2) : Opp isNot v1 v2 := by
+  unfold comp2 at h
+  split at h
+  · rename_i a1' o1' l1' r1' a2 o2 l2 r2 heq
+    cases heq
+    simp only [Expr.isCmp] at hc2
+    have hlog1 : o1.isLogic = false := by cases o1 <;> simp [BinOp.isCmp] at hc1 <;> rfl
+    have hlog2 : o2.isLogic = false := by cases o2 <;> simp [BinOp.isCmp] at hc2 <;> rfl
+    obtain ⟨gl1, gr1⟩ := g1.bin
+    obtain ⟨gl2, gr2⟩ := g2.bin
+    obtain ⟨X1, Y1, hX1, hY1, e1⟩ := eval_bin_cop hlog1 h1
+    obtain ⟨X2, Y2, hX2, hY2, e2⟩ := eval_bin_cop hlog2 h2
+    rw [evalBin_cmp hc1] at e1
+    rw [evalBin_cmp hc2] at e2
+    simp only [Option.some.injEq] at e1 e2
+    split at h
+    · rename_i hs
+      simp only [Bool.and_eq_true] at hs
+      simp only [Option.some.injEq] at h
+      subst h
+      obtain ⟨rfl, t1⟩ := Sim.cop gl1.1 gl2.1 hX1 hX2 (isSame_sound hs.1 gl1 gl2 hX1 hX2)
+      obtain ⟨rfl, t2⟩ := Sim.cop gr1.1 gr2.1 hY1 hY2 (isSame_sound hs.2 gr1 gr2 hY1 hY2)
+      rw [← t1, ← t2] at e2
+      rw [← e1, ← e2]
+      exact oppTable_sound ht _ _
+    · split at h
+      · rename_i hs
+        simp only [Bool.and_eq_true] at hs
+        simp only [Option.some.injEq] at h
+        subst h
+        obtain ⟨rfl, t1⟩ := Sim.cop gl1.1 gr2.1 hX1 hY2 (isSame_sound hs.1 gl1 gr2 hX1 hY2)
+        obtain ⟨rfl, t2⟩ := Sim.cop gr1.1 gl2.1 hY1 hX2 (isSame_sound hs.2 gr1 gl2 hY1 hX2)
+        rw [← t1, ← t2, uac_comm, ← cmpZ_flip] at e2
+        rw [← e1, ← e2]
+        exact oppTable_sound ht _ _
+      · simp at h
+  · simp at h
+
+theorem valueSide_spec {o l r x kn op} (h : valueSide o l r = some (x, kn, op)) :
+    kn.ann.known.isSome = true ∧ ((x = l ∧ kn = r ∧ op = o) ∨ (x = r ∧ kn = l ∧ op = flipOp o)) := by
+  unfold valueSide at h
+  split at h
+  · simp at h; obtain ⟨rfl, rfl, rfl⟩ := h; exact ⟨by assumption, Or.inl ⟨rfl, rfl, rfl⟩⟩
+  · split at h
+    · simp at h; obtain ⟨rfl, rfl, rfl⟩ := h; exact ⟨by assumption, Or.inr ⟨rfl, rfl, rfl⟩⟩
+    · simp at h
+
+/-- a comparison with the Known operand read on the right -/
+theorem valueSide_val {S ρ a o l r x kn op v} (h : valueSide o l r = some (x, kn, op)) (g : OGood S false (.bin a o l r))
+    (hc : o.isCmp = true) (hv : eval S ρ (.bin a o l r) = some v) :
+    ∃ X, eval S ρ x = some X ∧ Good S x ∧ v = b2i (cmpZ op X (kn.ann.front.getD 0)) := by
+  obtain ⟨hk, hside⟩ := valueSide_spec h
+  obtain ⟨gl, gr⟩ := g.bin
+  obtain ⟨k, hk'⟩ := Option.isSome_iff_exists.mp hk
+  rcases hside with ⟨rfl, rfl, rfl⟩ | ⟨rfl, rfl, rfl⟩
+  · obtain ⟨X, Y, hX, hY, e, _, cY⟩ := cmp_exact g hc (Or.inr hk) hv
+    have q := known_eq gr.1.1 hk' hY cY
+    refine ⟨X, hX, gl.1, ?_⟩
+    rw [(known_closed gr.1.1 hk').2, e, q]; rfl
+  · obtain ⟨X, Y, hX, hY, e, cX, _⟩ := cmp_exact g hc (Or.inl hk) hv
+    have q := known_eq gl.1.1 hk' hX cX
+    refine ⟨Y, hY, gr.1, ?_⟩
+    rw [(known_closed gl.1.1 hk').2, e, q, cmpZ_flip]; rfl
+
+/-- astutils.cpp:1970-2010 -/
+theorem knownRule_sound {S cpp ρ cond1 cond2 v1 v2} (h : knownRule cpp cond1 cond2 = true)
+    (g1 : OGood S false cond1) (g2 : OGood S false cond2) (hc1 : cond1.isCmp = true) (hc2 : cond2.isCmp = true)
+    (h1 : eval S ρ cond1 = some v1) (h2 : eval S ρ cond2 = some v2) : ¬(v1 ≠ 0 ∧ v2 ≠ 0) := by
+  unfold knownRule at h
+  split at h
+  · rename_i a1 o1 l1 r1 a2 o2 l2 r2
+    simp only [Expr.isCmp] at hc1 hc2
+    split at h
+    · rename_i x1 k1 op1 x2 k2 op2 hv1 hv2
+      obtain ⟨X1, hX1, gx1, e1⟩ := valueSide_val hv1 g1 hc1 h1
+      obtain ⟨X2, hX2, gx2, e2⟩ := valueSide_val hv2 g2 hc2 h2
+      split at h
+      · simp at h
+      · rename_i hs
+        simp at hs
+        obtain ⟨rfl, _⟩ := Sim.cop gx1.1 gx2.1 hX1 hX2 (isSame_sound hs gx1 gx2 hX1 hX2)
+        subst e1; subst e2
+        simp only [b2i_ne_zero]
+        generalize k1.ann.front.getD 0 = A at h ⊢
+        generalize k2.ann.front.getD 0 = B at h ⊢
+        cases op1 <;> cases op2 <;> simp at h <;> simp [cmpZ] <;> omega
+    · simp at h
+  · simp at h
+
+theorem Opp.of_weak {v1 v2} (h : ¬(v1 ≠ 0 ∧ v2 ≠ 0)) : Opp false v1 v2 := by
+  simpa [Opp] using h
+
+/-- astutils.cpp:1893-2023 -/
+theorem cmpPart_sound {S cpp ρ isNot cond1 cond2 v1 v2} (h : cmpPart cpp isNot cond1 cond2 = true)
+    (g1 : OGood S isNot cond1) (g2 : OGood S isNot cond2)
+    (h1 : eval S ρ cond1 = some v1) (h2 : eval S ρ cond2 = some v2) : Opp isNot v1 v2 := by
+  unfold cmpPart at h
+  split at h
+  · rename_i b hb
+    split at hb
+    · simp at hb
+    · rename_i hn
+      have : isNot = false := by simpa using hn
+      subst this
+      exact Opp.of_weak (eqEqRule_sound hb h g1 g2 h1 h2)
+  · split at h
+    · simp at h
+    · rename_i hcmp
+      simp only [Bool.or_eq_true, Bool.not_eq_true', not_or, Bool.not_eq_false] at hcmp
+      split at h
+      · split at h
+        · simp at h
+        · rename_i hn
+          have : isNot = false := by simpa using hn
+          subst this
+          exact Opp.of_weak (knownRule_sound h g1 g2 hcmp.1 hcmp.2 h1 h2)
+      · rename_i c2 hc2
+        split at h
+        · rename_i c1 hc1
+          cases cond1 <;> simp [Expr.binOp?] at hc1
+          subst hc1
+          exact comp2_sound hc2 h g1.1 g2.1 (by simpa [Expr.isCmp] using hcmp.1) hcmp.2 h1 h2
+        · simp at h
+
+theorem not_opp {S ρ a x w v1 v2} (h1 : eval S ρ (.un a .lnot x) = some v1) (hx : eval S ρ x = some w)
+    (t : w ≠ 0 ↔ v2 ≠ 0) (isNot : Bool) : Opp isNot v1 v2 := by
+  obtain ⟨w', hw', hv⟩ := eval_lnot h1
+  rw [hx] at hw'; simp only [Option.some.injEq] at hw'; subst hw'
+  apply Opp.of_strict
+  subst hv
+  by_cases hw : w = 0 <;> simp_all [b2i]
+
+/-- `(l || r)` against `c` from the two component results -/
+theorem lor_opp {S ρ a l r v v' isNot} (h : eval S ρ (.bin a .lor l r) = some v)
+    (hl : ∀ x, eval S ρ l = some x → Opp isNot x v') (hr : ∀ y, eval S ρ r = some y → Opp isNot y v') :
+    Opp isNot v v' := by
+  obtain ⟨x, hx, c⟩ := eval_lor h
+  have ol := hl x hx
+  rcases c with ⟨n, rfl⟩ | ⟨z, y, hy, rfl⟩
+  · cases isNot <;> simp only [Opp] at * <;> simp_all
+  · have or' := hr y hy
+    cases isNot <;> simp only [Opp] at * <;> by_cases hy0 : y = 0 <;> simp_all [b2i]
+
+theorem andPair_spec {c1 c2 l1 r1 l2 r2} (h : andPair c1 c2 = some (l1, r1, l2, r2)) :
+    ∃ a1 a2, c1 = .bin a1 .land l1 r1 ∧ c2 = .bin a2 .land l2 r2 := by
+  unfold andPair at h
+  split at h
+  · simp at h; obtain ⟨rfl, rfl, rfl, rfl⟩ := h; exact ⟨_, _, rfl, rfl⟩
+  · simp at h
+
+theorem lorPick_spec {c1 cond1 c2 cond2 l r co other} (h : lorPick c1 cond1 c2 cond2 = some (l, r, co, other)) :
+    (∃ a, cond2 = .bin a .lor l r ∧ co = c1 ∧ other = cond1) ∨ (∃ a, cond1 = .bin a .lor l r ∧ co = c2 ∧ other = cond2) := by
+  unfold lorPick at h
+  split at h
+  · split at h
+    · simp at h; obtain ⟨rfl, rfl, rfl, rfl⟩ := h; exact Or.inl ⟨_, rfl, rfl, rfl⟩
+    · split at h
+      · simp at h; obtain ⟨rfl, rfl, rfl, rfl⟩ := h; exact Or.inr ⟨_, rfl, rfl, rfl⟩
+      · simp at h
+  · simp at h
+
+theorem isOppF_sound (S : Sem) (cpp : Bool) (ρ : Env) (hz : S.lval ['0'] = 0) (isNot : Bool) :
+    ∀ (n : Nat) (c1 : Ctx) (e1 : Expr) (c2 : Ctx) (e2 : Expr), OGood S isNot e1 → OGood S isNot e2 →
+      isOppF cpp isNot n c1 e1 c2 e2 = true →
+      ∀ v1 v2, eval S ρ e1 = some v1 → eval S ρ e2 = some v2 → Opp isNot v1 v2 := by
+  intro n
+  induction n with
+  | zero => intro _ _ _ _ _ _ h; simp [isOppF] at h
+  | succ n ih =>
+    intro c1 e1 c2 e2 g1 g2 h v1 v2 h1 h2
+    unfold isOppF at h
+    split at h
+    · simp at h
+    · by_cases hand : (!isNot && andHit (isOppF cpp isNot n) cpp e1 e2) = true
+      · -- `&&` against `&&` with a common operand
+        simp only [Bool.and_eq_true, Bool.not_eq_true'] at hand
+        obtain ⟨hn, hand⟩ := hand
+        subst hn
+        unfold andHit at hand
+        split at hand
+        · rename_i l1 r1 l2 r2 hp
+          obtain ⟨a1, a2, rfl, rfl⟩ := andPair_spec hp
+          obtain ⟨gl1, gr1⟩ := g1.bin
+          obtain ⟨gl2, gr2⟩ := g2.bin
+          obtain ⟨x1, hx1, q1⟩ := eval_land h1
+          obtain ⟨x2, hx2, q2⟩ := eval_land h2
+          apply Opp.of_weak
+          rintro ⟨n1, n2⟩
+          rcases q1 with ⟨_, rfl⟩ | ⟨nx1, y1, hy1, rfl⟩
+          · exact n1 rfl
+          rcases q2 with ⟨_, rfl⟩ | ⟨nx2, y2, hy2, rfl⟩
+          · exact n2 rfl
+          rw [b2i_ne_zero, decide_eq_true_eq] at n1 n2
+          simp only [Bool.or_eq_true, Bool.and_eq_true] at hand
+          rcases hand with ((⟨_, o⟩ | ⟨_, o⟩) | ⟨_, o⟩) | ⟨_, o⟩
+          · have := ih _ _ _ _ gr1 gr2 o y1 y2 hy1 hy2; simp [Opp] at this; exact n2 (this n1)
+          · have := ih _ _ _ _ gr1 gl2 o y1 x2 hy1 hx2; simp [Opp] at this; exact nx2 (this n1)
+          · have := ih _ _ _ _ gl1 gr2 o x1 y2 hx1 hy2; simp [Opp] at this; exact n2 (this nx1)
+          · have := ih _ _ _ _ gl1 gl2 o x1 x2 hx1 hx2; simp [Opp] at this; exact nx2 (this nx1)
+        · simp at hand
+      · rw [if_neg hand] at h
+        split at h
+        · -- `||` on one side
+          rename_i l r co other hp
+          simp only [Bool.and_eq_true] at h
+          rcases lorPick_spec hp with ⟨a, rfl, rfl, rfl⟩ | ⟨a, rfl, rfl, rfl⟩
+          · obtain ⟨gl, gr⟩ := g2.bin
+            exact (lor_opp h2 (fun x hx => ih _ _ _ _ gl g1 h.1 x v1 hx h1) (fun y hy => ih _ _ _ _ gr g1 h.2 y v1 hy h1)).symm
+          · obtain ⟨gl, gr⟩ := g1.bin
+            exact lor_opp h1 (fun x hx => ih _ _ _ _ gl g2 h.1 x v2 hx h2) (fun y hy => ih _ _ _ _ gr g2 h.2 y v2 hy h2)
+        · split at h
+          · -- cond1 = !x
+            rename_i x hx
+            obtain ⟨a, rfl⟩ := notArg_spec hx
+            obtain ⟨w, hw, _⟩ := eval_lnot h1
+            exact not_opp h1 hw (notBranch_sound hz h g1.1.un g2.1 hw h2) isNot
+          · split at h
+            · -- cond2 = !y
+              rename_i y hy
+              obtain ⟨a, rfl⟩ := notArg_spec hy
+              split at h
+              · simp at h
+              · obtain ⟨w, hw, _⟩ := eval_lnot h2
+                exact (not_opp h2 hw (notBranch_sound hz h g2.1.un g1.1 hw h1) isNot).symm
+            · exact cmpPart_sound h g1 g2 h1 h2
+
 end Cppcheck.CondExpr
